@@ -282,7 +282,7 @@ def make_replay(h, prop, tier, logdir):
     open(os.path.join(logdir, f"{h.name}.playback-gen.log"), "w").write(out)
     tests = []
     # tolerant of trailing blanks after the header lines and of rustfmt-wrapped fn headers
-    blk = re.compile(r"/// Test generated for harness `[^`]*`[ \t]*\n///[ \t]*\n/// Check for `([a-z_]+)`: (.*?)\n[ \t]*\n#\[test\]\nfn (kani_concrete_playback_[A-Za-z0-9_]+)\(\)\s*\{.*?\n\}\n", re.S)
+    blk = re.compile(r"/// Test generated for harness `[^`]*`[ \t]*\n///[ \t]*\n/// Check for `([a-z_]+)`: (.*?)\n[ \t]*\n#\[test\]\nfn (kani_concrete_playback_[A-Za-z0-9_]+)\(\s*\)\s*\{.*?\n\}\n", re.S)
     for root, _, files in os.walk(os.path.join(rdir, "src")):
         for f in files:
             if not f.endswith(".rs"):
